@@ -13,7 +13,10 @@ use crate::{
         error::DdsResult,
         instance::InstanceHandle,
         qos::DataWriterQos,
-        status::{OfferedDeadlineMissedStatus, PublicationMatchedStatus, StatusKind},
+        status::{
+            OfferedDeadlineMissedStatus, OfferedIncompatibleQosStatus, PublicationMatchedStatus,
+            StatusKind,
+        },
         time::Time,
     },
     rtps::stateful_writer::RtpsStatefulWriter,
@@ -120,6 +123,20 @@ impl UserDefinedDataWriter {
                 n.send(Ok(()));
             }
         }
+    }
+
+    pub fn get_offered_incompatible_qos_status(&mut self) -> OfferedIncompatibleQosStatus {
+        let status = self
+            .incompatible_subscriptions
+            .offered_incompatible_qos_status
+            .clone();
+        self.incompatible_subscriptions
+            .offered_incompatible_qos_status
+            .total_count_change = 0;
+        self.status_condition
+            .remove_communication_state(StatusKind::OfferedIncompatibleQos);
+
+        status
     }
 
     pub fn get_offered_deadline_missed_status(&mut self) -> OfferedDeadlineMissedStatus {
